@@ -302,7 +302,7 @@ func checkCmd(args []string) {
 	solveAll(solve, sec, tier == "thorough", 8) // two racing solver processes per obligation: 16 cores
 
 	findings := loadFindings()
-	nObl, nDis := 0, 0
+	nObl, nDis, nTwo := 0, 0, 0
 	bySolver := map[string]int{}
 	var solverMs int64
 	var samples []map[string]interface{}
@@ -330,6 +330,9 @@ func checkCmd(args []string) {
 		if r.Status == "unsat" {
 			nDis++
 			bySolver[r.Solver]++
+			if r.Second != "" {
+				nTwo++
+			}
 			if len(samples) < 12 {
 				samples = append(samples, map[string]interface{}{"obligation": r.Name, "solver": r.Solver, "ms": r.Ms, "at": r.Pos, "construct": r.Construct})
 			}
@@ -384,7 +387,8 @@ func checkCmd(args []string) {
 		"samples":                  samples,
 		"known_findings_matched":   knownMatched,
 		"vacuity":                  map[string]interface{}{"cover_queries": len(vcs), "contradictory": vacuous},
-		"two_solver_agreement":     tier == "thorough",
+		"two_solver_agreement":     fmt.Sprintf("%d of %d discharged obligations were proved independently by two solvers (asked for in the thorough tier only, %ds grace for the second solver; one sound unsat discharges an obligation, a contradicting sat is reported as a solver disagreement)", nTwo, nDis, graceSec),
+		"two_solver_confirmed":     nTwo,
 		"marker_strip_identical":   P.markerOK,
 		"table_invariants":         tables,
 	}
